@@ -54,6 +54,9 @@ type C10Case struct {
 	SDE string `json:"source_date_epoch,omitempty"`
 	// KeyName (apk): class of the key name the signature entry is named after ("" = origin)
 	KeyName string `json:"key_name,omitempty"`
+	// ProcEnv: the passphrase is in the process environment (not in a caller's mapping), the configuration is read and
+	// packaged twice in a row: the second round must sign as the first did
+	ProcEnv bool `json:"passphrase_in_process_env,omitempty"`
 }
 
 // c10KeyNames: apk key names. A name the tar header of the signature entry cannot carry must make signing fail,
@@ -88,6 +91,7 @@ type c10Key struct {
 	givePass  string // passphrase given
 	passVar   string // environment variable carrying it
 	keyID     string
+	cfgKeyID  string // the key id as the configuration writes it (default: keyID)
 	wantFail  bool
 	apk       bool
 }
@@ -107,6 +111,8 @@ var c10Keys = map[string]c10Key{
 	"wrong-passphrase":            {file: "privkey.asc", pub: "pubkey", givePass: "hunter3", passVar: "NFPM_PASSPHRASE", wantFail: true},
 	"no-passphrase":               {file: "privkey.asc", pub: "pubkey", wantFail: true},
 	"multiple-keys":               {file: "multiple_privkeys.asc", pub: "pubkey", wantFail: true},
+	"keyid-primary-upper": {file: "privkey_unprotected.asc", pub: "pubkey", keyID: "bc8acdd415bd80b3", cfgKeyID: "BC8ACDD415BD80B3"},
+	"keyid-subkey-mixed":  {file: "privkey_unprotected.asc", pub: "pubkey", keyID: "9890904dfb2ec88a", cfgKeyID: "9890904DfB2eC88A"},
 	"keyid-invalid":               {file: "privkey_unprotected.asc", pub: "pubkey", keyID: "xyz", wantFail: true},
 	// a valid id behind garbage, a valid id with something appended, more than 64 bits of hex
 	"keyid-garbage-prefix":  {file: "privkey_unprotected.asc", pub: "pubkey", keyID: "not-a-key-id-bc8acdd415bd80b3", wantFail: true},
@@ -126,6 +132,8 @@ var c10Keys = map[string]c10Key{
 	"protected-symlink":     {file: "LINK:privkey.asc", pub: "pubkey", givePass: "hunter2", passVar: "FORMAT"},
 	"pkcs1-symlink":         {file: "LINK:rsa_unprotected.priv", pub: "rsa_unprotected.pub", apk: true},
 	"pkcs1":                 {file: "rsa_unprotected.priv", pub: "rsa_unprotected.pub", apk: true},
+	// the private key followed by its public key in one file (as `openssl genrsa; openssl rsa -pubout >>` leaves it)
+	"pkcs1-then-public":     {file: "CONCAT:rsa_unprotected.priv+rsa_unprotected.pub", pub: "rsa_unprotected.pub", apk: true},
 	"pkcs8":                 {file: "rsa_pkcs8.priv", pub: "rsa_pkcs8.pub", apk: true},
 	"pkcs8-4096":            {file: "rsa4096.priv", pub: "rsa4096.pub", apk: true},
 	"encrypted-pem":         {file: "rsa.priv", pub: "rsa.pub", givePass: "hunter2", passVar: "FORMAT", apk: true},
@@ -138,8 +146,8 @@ var c10Keys = map[string]c10Key{
 	"pem-garbage":               {file: "wrong_key_format.priv", pub: "rsa.pub", apk: true, wantFail: true},
 }
 
-var c10PGPKeys = []string{"expired-subkey", "armored-symlink", "protected-symlink", "subkey-only-with-passphrase", "armored-with-passphrase", "binary-with-passphrase", "armored-leading-blank", "armored-leading-text", "armored-crlf", "armored-trailing-text", "keyid-decimal", "decimal-no-keyid", "armored", "binary", "protected", "protected-binary", "subkey-only", "keyid-primary", "keyid-subkey", "wrong-passphrase", "no-passphrase", "multiple-keys", "keyid-invalid", "keyid-garbage-prefix", "keyid-garbage-suffix", "keyid-too-long", "key-missing"}
-var c10APKKeys = []string{"pkcs1-symlink", "encrypted-pem-dollar-pass", "encrypted-pem-padded-pass", "pkcs1", "pkcs8", "pkcs8-4096", "encrypted-pem", "encrypted-pem-general", "encrypted-pem-wrong", "pem-garbage"}
+var c10PGPKeys = []string{"expired-subkey", "armored-symlink", "protected-symlink", "subkey-only-with-passphrase", "armored-with-passphrase", "binary-with-passphrase", "armored-leading-blank", "armored-leading-text", "armored-crlf", "armored-trailing-text", "keyid-decimal", "decimal-no-keyid", "armored", "binary", "protected", "protected-binary", "subkey-only", "keyid-primary", "keyid-subkey", "keyid-primary-upper", "keyid-subkey-mixed", "wrong-passphrase", "no-passphrase", "multiple-keys", "keyid-invalid", "keyid-garbage-prefix", "keyid-garbage-suffix", "keyid-too-long", "key-missing"}
+var c10APKKeys = []string{"pkcs1-then-public", "pkcs1-symlink", "encrypted-pem-dollar-pass", "encrypted-pem-padded-pass", "pkcs1", "pkcs8", "pkcs8-4096", "encrypted-pem", "encrypted-pem-general", "encrypted-pem-wrong", "pem-garbage"}
 
 // c10Payloads is the number of payload shapes (0 = empty).
 const c10Payloads = 7
@@ -236,6 +244,12 @@ func init() {
 					if !yield(C10Case{Format: m.f, Method: m.m, Key: m.k, Payload: 1, Via: "file", FailJ: -1, SDE: sde}) {
 						return
 					}
+				}
+			}
+			// the passphrase in the process environment, the document read and packaged twice
+			for _, m := range []struct{ f, m, k string }{{"deb", "debsign", "protected"}, {"deb", "dpkg-sig", "protected-binary"}, {"rpm", "rpm", "protected"}, {"rpm", "rpm", "protected-binary"}, {"apk", "apk", "encrypted-pem"}, {"apk", "apk", "encrypted-pem-general"}} {
+				if !yield(C10Case{Format: m.f, Method: m.m, Key: m.k, Payload: 1, Via: "file", FailJ: -1, ProcEnv: true}) {
+					return
 				}
 			}
 			// the key file is replaced between two builds in one process
@@ -687,6 +701,23 @@ func checkC10(env *engine.Env, ci any) engine.Outcome {
 			}
 			sigm["key_file"] = gp
 		}
+		if strings.HasPrefix(key.file, "CONCAT:") {
+			var all []byte
+			for _, part := range strings.Split(strings.TrimPrefix(key.file, "CONCAT:"), "+") {
+				b, err := os.ReadFile(keyPath(env, part))
+				if err != nil {
+					out.HarnessError = err.Error()
+					return out
+				}
+				all = append(all, b...)
+			}
+			cp := filepath.Join(env.Scratch, "concatenated-key.pem")
+			if err := os.WriteFile(cp, all, 0o600); err != nil {
+				out.HarnessError = err.Error()
+				return out
+			}
+			sigm["key_file"] = cp
+		}
 		if strings.HasPrefix(key.file, "LINK:") {
 			lp := filepath.Join(env.Scratch, "link-to-"+strings.TrimPrefix(key.file, "LINK:"))
 			os.Remove(lp)
@@ -753,6 +784,9 @@ func checkC10(env *engine.Env, ci any) engine.Outcome {
 		}
 		if key.keyID != "" {
 			sigm["key_id"] = key.keyID
+			if key.cfgKeyID != "" {
+				sigm["key_id"] = key.cfgKeyID
+			}
 		}
 	}
 	if c.Method == "dpkg-sig" {
@@ -804,7 +838,15 @@ func checkC10(env *engine.Env, ci any) engine.Outcome {
 		envm[v] = key.givePass
 	}
 	text := d.YAML()
-	cfg, err := parseYAML(text, func(k string) string { return envm[k] })
+	mapping := func(k string) string { return envm[k] }
+	if c.ProcEnv {
+		for k, v := range envm {
+			os.Setenv(k, v)
+			defer os.Unsetenv(k)
+		}
+		mapping = os.Getenv
+	}
+	cfg, err := parseYAML(text, mapping)
 	if err != nil {
 		out.HarnessError = "parse: " + err.Error()
 		return out
@@ -881,6 +923,27 @@ func checkC10(env *engine.Env, ci any) engine.Outcome {
 	var buf bytes.Buffer
 	perr := p.Package(info, &buf)
 	out.Nontrivial = true
+	if c.ProcEnv && perr == nil {
+		// the same document read and packaged once more in this process, the environment untouched by the harness
+		var second error
+		if cfg2, err := parseYAML(text, os.Getenv); err != nil {
+			second = err
+		} else if i2, err := cfg2.Get(f); err != nil {
+			second = err
+		} else {
+			var b2 bytes.Buffer
+			second = p.Package(nfpm.WithDefaults(i2), &b2)
+		}
+		out.Transitions++
+		if second != nil {
+			viol("sig:second-round-fails:"+c.Method, "the first parse + package signed; the same document parsed and packaged again in the same process fails: %v", second)
+		}
+		for k, v := range envm {
+			if got := os.Getenv(k); got != v {
+				viol("sig:environment-changed:"+c.Method, "after packaging, %s in the process environment is %q (the harness set %q)", k, got, v)
+			}
+		}
+	}
 	if c.CompCandidate && perr != nil {
 		// a compression name beyond the documented ones that this tree does not take: nothing to judge
 		out.Nontrivial = false
@@ -894,7 +957,7 @@ func checkC10(env *engine.Env, ci any) engine.Outcome {
 	if viaFn(c) && c.FailJ >= 0 {
 		expectFail = true
 	}
-	out.Key = fmt.Sprintf("%s:%s:%s:%d:%s:%s:%s:%d:%v:%s:%s:err=%v", f, c.Method, c.Key, c.Payload, c.Comp, c.Via, c.SigType, c.FailJ, c.Rotate, c.SDE, c.KeyName+fmt.Sprint(c.BinSig, c.InOverride), perr != nil)
+	out.Key = fmt.Sprintf("%s:%s:%s:%d:%s:%s:%s:%d:%v:%s:%s:err=%v", f, c.Method, c.Key, c.Payload, c.Comp, c.Via, c.SigType, c.FailJ, c.Rotate, c.SDE, c.KeyName+fmt.Sprint(c.BinSig, c.InOverride, c.ProcEnv), perr != nil)
 	if expectFail {
 		why := "signing cannot succeed"
 		if perr == nil {
